@@ -15,6 +15,7 @@ from __future__ import annotations
 
 import os
 import subprocess
+import sys
 import tempfile
 import time
 
@@ -298,6 +299,9 @@ def race(smt2: str, try_cvc5=True, limit_s=None):
                     first = out.strip().splitlines()[0] if out.strip() else ""
                     if first == "unsat":
                         return name
+                    if first.startswith("(error"):
+                        # a front end rejecting the exported text is a defect of the export, not a verdict: say so
+                        sys.stderr.write(f"pyvc: external solver {name} rejected the query: {first[:160]}\n")
             time.sleep(0.05)
         return None
     finally:
